@@ -74,4 +74,22 @@ def check_only(sid, d, meta, prop):
         print(f"{sid}: confirmed={meta['confirmed']['ok']} check exit={c.returncode} violations={len(viol)} {sorted(set(o for o in obl if o))[:3]}")
 
 
-main(sys.argv[1:] or sorted(os.listdir(f"{V}/seeded")))
+def results():
+    rows = []
+    for sid in sorted(d for d in os.listdir(f"{V}/seeded") if os.path.isdir(f"{V}/seeded/{d}")):
+        m = json.load(open(f"{V}/seeded/{sid}/meta.json"))
+        ck, cf = m.get("check", {}), m.get("confirmed", {})
+        obl = ck.get("obligations", [])
+        kinds = {"bounded" if ".bounded." in o else "obligation" for o in obl}
+        by = "+".join(sorted(kinds)) or "-"
+        rows.append(f"| {sid} | {m.get('property') or sid.split('-')[0]} | {'yes' if cf.get('ok') else 'no' + (' (obsolete)' if m.get('obsolete') else '')} | {ck.get('exit')} | {ck.get('violations')} | {by} | "
+                    f"{str(m.get('summary', '')).replace('|', '/').replace(chr(10), ' ')[:110]} | {'; '.join(o.replace('|', '/')[:180] for o in obl[:2])} |")
+    head = open(f"{V}/seeded/RESULTS.md").read().split("| seed |")[0]
+    open(f"{V}/seeded/RESULTS.md", "w").write(head + "| seed | prop | confirmed | exit | violations | caught by | change | first obligations |\n|---|---|---|---|---|---|---|---|\n" + "\n".join(rows) + "\n")
+
+
+if "--results" in sys.argv:
+    results()
+else:
+    main(sys.argv[1:] or sorted(d for d in os.listdir(f"{V}/seeded") if os.path.isdir(f"{V}/seeded/{d}")))
+    results()
